@@ -107,7 +107,7 @@ class Expander:
 
     # ------------------------------------------------------------------------------------
     def expand(self):
-        lines = self.expand_macros(open(self.tpath).read().split('\n'))
+        lines = self.expand_macros(self.splice_templates(open(self.tpath).read().split('\n')))
         i = 0
         n = len(lines)
         while i < n:
@@ -145,6 +145,20 @@ class Expander:
                 self.out.append(ln)
                 i += 1
         return '\n'.join(self.out) + '\n'
+
+    @staticmethod
+    def splice_templates(lines):
+        """//@include-template <path>: the lines of another template are spliced in (directives in it
+        are processed as if written here)."""
+        out = []
+        for ln in lines:
+            st = ln.strip()
+            if st.startswith('//@include-template '):
+                pth = os.path.join(VERIF, st.split(None, 1)[1].strip())
+                out.extend(Expander.splice_templates(open(pth).read().split('\n')))
+            else:
+                out.append(ln)
+        return out
 
     @staticmethod
     def expand_macros(lines):
